@@ -118,6 +118,9 @@ def capture_before_release(ctx: Ctx):
                          'no store of Runner.get_result(task) into the result dict in the consumer loop',
                          construct='no-capture')
             continue
+        if not rels:
+            yield ctx.ob('C17.CAPTURE-BEFORE-RELEASE', True, cl.fn, cl.loop,
+                         'no release call inside the consumer loop (reported by C17.RELEASE-CALLED)')
         for (cap, _call) in caps:
             cn = g.primary(cap)
             for rel in rels:
